@@ -964,7 +964,8 @@ def _c06_pool():
     V = T.ValueWrapper
     a, b, c, d = V(7), V(3), V(2), V(5)
     return [("lit", a), ("neglit", V(-4)), ("add", a + b), ("sub", a - b), ("mul", b * c), ("div", a / c),
-            ("neg", -b), ("negsum", -(a + c)), ("eq", a == b), ("lt", b < a), ("and", (a == a) & (b == c)),
+            ("neg", -b), ("negsum", -(a + c)), ("sub-mul", a - b * c), ("mul-sub", b * c - d), ("div-add", a / c + b),
+            ("add-div", d + a / c), ("eq", a == b), ("lt", b < a), ("and", (a == a) & (b == c)),
             ("or", (a == b) | (c == c)), ("xor", T.ComplexCriterion(__import__("pypika_tortoise").enums.Boolean.xor_, a == a, b == b)),
             ("nested-or", T.NestedCriterion(__import__("pypika_tortoise").enums.Equality.eq,
                                             __import__("pypika_tortoise").enums.Boolean.or_, a, b, c == c)),
